@@ -28,7 +28,7 @@ COMPONENTS = {
     'stub': ['user objective with failure plan', 'PRNG seam (seeded + extreme legal draws)', 'joblib', 'time.time', 'uuid1'],
 }
 PROBES_EXPECTED = ['pbest_kept', 'pbest_replaced', 'hit_upper', 'hit_lower', 'inside', 'velocity_clamped_hi', 'velocity_clamped_lo',
-                   'leaders_at_capacity', 'omopso', 'smpso', 'psoga', 'direct_family', 'box_narrowed_between_uses']
+                   'leaders_at_capacity', 'omopso', 'smpso', 'psoga', 'direct_family', 'box_narrowed_between_uses', 'infinite_objective_plateau']
 
 ALGOS = ('omopso', 'smpso', 'psoga')
 FACTOR = {'OMOPSO': -1, 'PSOGA': -1, 'SMPSO': 0.001}
@@ -205,10 +205,20 @@ def _direct(D):
                             ind.features['velocity'][i] = 0.0
                 alg.update_position(parts)
                 # give the particles costs so that the personal-best / leader methods can be exercised too
+                plateau = w.m >= 2 and D.dec('work', ('plateau', rnd), 4) == 1
                 for ind in parts:
                     ind.costs = w.f([min(max(x, p['bounds'][0]), p['bounds'][1]) for x, p in zip(ind.vector, alg.parameters)])
+                    if plateau:
+                        # a penalty plateau: one objective is +inf (minimised) for every particle, also in its personal best
+                        ind.costs[-1] = float('inf') * w.signs[-1]
+                        if ind.features.get('best_cost') is not None:
+                            bc = list(ind.features['best_cost'])
+                            bc[w.m - 1] = float('inf')
+                            ind.features['best_cost'] = bc
                     ind.features['feasible'] = 0.0
                     ind.calc_signed_costs(w.signs)
+                if plateau:
+                    ctx.probe('infinite_objective_plateau')
                 alg.update_particle_best(parts)
                 alg.update_global_best(parts)
                 if ctx.violations:
